@@ -613,7 +613,9 @@ func main() {
 	}
 	extras := []map[string]interface{}{nil, {"x": 1.5}, {"meta": map[string]interface{}{"a": []interface{}{1.0, nil}, "": "s"}}, {"x": "s", "y": true, "z": nil},
 		// names that differ from the reserved ones only by case, and names reserved at other levels
-		{"Type": "custom"}, {"BBox": []interface{}{1.0, 2.0}, "TYPE": 7.0}, {"Features": "none"}, {"geometry": nil, "properties": map[string]interface{}{"a": 1.0}, "id": 3.0, "coordinates": []interface{}{}},
+		{"Type": "custom"}, {"BBox": []interface{}{1.0, 2.0}, "TYPE": 7.0}, {"Features": "none"},
+		// names a document store gives a meaning to: to GeoJSON they are foreign members like any other
+		{"_id": "abc-123", "count": 2.0}, {"$ref": "x", "_rev": 1.0, "__v": true}, {"geometry": nil, "properties": map[string]interface{}{"a": 1.0}, "id": 3.0, "coordinates": []interface{}{}},
 		// names and values that need escaping in JSON: control characters, DEL, quotes, separators, astral runes
 		{"unit\x1fsep": "v\x1f", "bell\a": 1.0}, {"del\x7f": "\x7f", "q\"\\": "é\U0001F600\u2028<&>"}, {"tab\t\n": "line\r\n", "\U0001F600": "\b\f"}}
 	// a bbox is a list of numbers the library carries, whatever they say: boxes whose lower corner exceeds the upper
@@ -689,7 +691,7 @@ func main() {
 			c.NonTrivial()
 		}
 	})
-	r.Explore("feature-collections", "collections of 0..2 features x 11 foreign-member sets (incl. case variants of the reserved names and names / values that need JSON escaping) x bbox, JSON and BSON, under every iteration order of the map ranges in package geojson (<= 4 keys)", mc.Opts{MaxDev: ev.Pick(r, 4, 5), Workers: 1}, func(c *mc.Ctx) {
+	r.Explore("feature-collections", "collections of 0..2 features x 13 foreign-member sets (incl. case variants of the reserved names and names / values that need JSON escaping) x bbox, JSON and BSON, under every iteration order of the map ranges in package geojson (<= 4 keys)", mc.Opts{MaxDev: ev.Pick(r, 4, 5), Workers: 1}, func(c *mc.Ctx) {
 		fc := geojson.NewFeatureCollection()
 		for i, k := 0, c.Choose(3); i < k; i++ {
 			fc.Append(genFeature(c))
